@@ -404,6 +404,8 @@ def make_world(case):
 
 
 def run_impl(case):
+    if case.get('kind') == 'conversation':
+        return run_conversation(case['conv'])
     fl = make_world(case)
     if 'conns' in case:
         # several client connections, one after the other, handled by the same process / plugin classes / flags
@@ -536,6 +538,8 @@ def match_table(case, out):
 
 
 def coq_term(case, out):
+    if case.get('kind') == 'conversation':
+        return None          # later requests are outside the model (oracle only)
     if 'conns' in case:
         ts = [coq_term(subcase(case, k), o) for k, o in enumerate(out['conns'])]
         return [t for t in ts if t is not None]
@@ -652,6 +656,8 @@ def in_domain(case):
 
 
 def oracle(case, out):
+    if case.get('kind') == 'conversation':
+        return conv_oracle(case['conv'], out)
     if 'conns' in case:
         for k, o in enumerate(out['conns']):
             f = oracle(subcase(case, k), o)
@@ -781,17 +787,23 @@ def _oracle_main(case, out):
 
 
 def nontrivial(case, out):
+    if case.get('kind') == 'conversation':
+        return False
     if 'conns' in case:
         return any(nontrivial(subcase(case, k), o) for k, o in enumerate(out['conns']))
     return out.get('snap') is not None and (bool(out.get('connect_log')) and any(out.get('up', [])) or bool(out.get('client')))
 
 
 def classify(case, out, failure):
+    if case.get('kind') == 'conversation':
+        return None
     return None
 
 
 # ----------------------------------------------------------------- shrinking, search
 def shrink(case, fails):
+    if case.get('kind') == 'conversation':
+        return case
     """greedy: drop reads / cut / headers / body / non-essential routes and URLs while the oracle still fails"""
     import copy
     if 'conns' in case:
@@ -917,6 +929,34 @@ def run_conversation(conv):
     return obs
 
 
+def conv_oracle(conv, o):
+    """property oracle for a LATER request whose predecessor was answered completely: it is connected to the host and port
+    of one of ITS route's upstream URLs and reaches that upstream (what happens to the previous upstream socket is the
+    recorded C04/C10 finding and is not judged here)"""
+    if conv.get('packing') == 'one-segment' or 'exception' in o or len(o.get('steps', [])) < 2:
+        return None
+    rq2 = conv['requests'][1]
+    c2 = dict(plugins=conv['plugins'], rewrite=conv['rewrite'], request=rq2)
+    if n_matching(conv['plugins'], rq2['target']) < 1 or not in_domain(c2):
+        return None
+    fired2 = expected_target(c2) or []
+    r2 = fired2[0] if fired2 else None
+    if r2 is None or r2['type'] != 'static' or not r2.get('urls') or len(o['connect_log']) < 1:
+        return None
+    s2 = o['steps'][1]
+    want = {(u['host'].strip('[]'), default_port(u)) for u in r2['urls']}
+    got = tuple(o['connect_log'][-1][:2]) if len(o['connect_log']) >= 2 else None
+    fwd = s2['up_out'][-1] if s2.get('up_out') else b''
+    if got is None:
+        return ('the second request of the connection (%r, matching route %r -> %s) caused no outbound connection of its own; '
+                'connect log %r' % (rq2['target'], r2['regex'], sorted(want), o['connect_log']))
+    if (str(got[0]).strip('[]'), int(got[1])) not in want:
+        return 'the second request of the connection (%r) was connected to %r, its route names %s' % (rq2['target'], got, sorted(want))
+    if not bytes(fwd).startswith(bytes(rq2['method']) + b' '):
+        return 'the second request of the connection (%r) did not reach the upstream it was connected to' % (rq2['target'],)
+    return None
+
+
 def extra_checks(rng, tier):
     import collections
     quick = tier != 'thorough'
@@ -949,8 +989,27 @@ def extra_checks(rng, tier):
         if any(r['type'] != 'static' for p in c['plugins'] for r in p['routes']) or len(c['plugins']) != 1:
             continue
         rq1 = dict(c['request'], method=b'GET', headers=[[b'Host', b'me.example']], body=b'', chunked=False, version=b'HTTP/1.1')
-        second = rng.choice(['same', 'other-path'])
+        second = rng.choice(['same', 'other-path', 'other-route', 'other-route'])
         rq2 = dict(rq1) if second == 'same' else dict(rq1, target=rng.choice(PATHS))
+        if second == 'other-route':
+            # (round-3 seed C12-r3-1) a second route whose upstream differs from the first one's only in the PORT, only in
+            # the host, or in both: the later request must be connected to ITS route's host and port
+            import copy
+            p0 = copy.deepcopy(c['plugins'][0])
+            r0 = next((r for r in p0['routes'] if re.compile(r['regex']).match(rq1['target'].decode('latin-1'))), None)
+            if r0 is None or not r0.get('urls'):
+                continue
+            u0 = r0['urls'][0]
+            u2 = dict(u0)
+            how = rng.choice(['port', 'port', 'host', 'both'])
+            if how in ('port', 'both'):
+                u2['port'] = rng.choice([x for x in (81, 8080, 8443, 65535, 1) if x != default_port(u0)])
+            if how in ('host', 'both'):
+                u2['host'] = rng.choice([h for h in ('up1.example', 'up2.example', '10.0.0.7') if h != u0['host']])
+            u2 = dict(u2, path='/second', userinfo=None, raw=None)
+            p0['routes'] = [dict(type='static', regex=r'/zz-second$', urls=[u2])] + p0['routes']
+            c = dict(c, plugins=[p0])
+            rq2 = dict(rq1, target=b'/zz-second')
         n2 = n_matching(c['plugins'], rq2['target'])
         packing = 'separate' if rng.random() < 0.75 else 'one-segment'
         conv = dict(plugins=c['plugins'], rewrite=c['rewrite'], draws=[0] * 6, requests=[rq1, rq2], responses=[resp, resp], packing=packing)
@@ -967,6 +1026,14 @@ def extra_checks(rng, tier):
             stats['torn down after first request'] += 1
             continue
         s2 = o['steps'][1]
+        what = conv_oracle(conv, o)
+        if what:
+            failures.append(dict(case=dict(kind='conversation', conv=conv), out=o, what=what))
+            stats['later-request routing violated'] += 1
+            if len(failures) >= 3:
+                break
+        elif n2 >= 1:
+            stats['later-request routing checked'] += 1
         if n2 >= 1:
             stats['2nd request matches a route: new upstream connection opened = %s, old upstream socket closed at the end = %s, forwarded+relayed = %s' % (
                 s2['n_up'] == 2, o['up_closed_end'][0] if o['up_closed_end'] else None, bool(s2.get('relayed')) and s2['n_up'] == 2 and bool(s2['up_out'][-1]))] += 1
